@@ -10,7 +10,7 @@ package main
 // prefixes (all of them up to 4 KB, stratified beyond; always 0, 1, len-1, the gzip
 // header and trailer boundaries), singly and in random combinations. Every image is
 // reopened by the real code with fresh templates after deleting LOCK, probed twice in
-// all modalities, forced through one more rotation + Flush (which shows the next
+// all modalities, every third also through a compaction of the recovered segments, all forced through one more rotation + Flush (which shows the next
 // segment id), listed, probed again and closed; the Lean driver recomputes all of it
 // from the model's `recover` on the image described by (file names, gzip cut classes).
 
@@ -48,6 +48,13 @@ func genCrash(r *core.Rand, tier string) *stCase {
 			c.Cmds = append(c.Cmds, probes(c)...)
 		}
 	}
+	if nFlush > 0 && r.Chance(0.4) {
+		// a restart: what follows (compaction included) works on segments found on disk
+		c.Cmds = append(c.Cmds, stCmd{Op: "close"}, stCmd{Op: "open"})
+		if r.Chance(0.5) {
+			c.Cmds = append(c.Cmds, genAdd(r, c), stCmd{Op: "rotate"}, stCmd{Op: "flush"})
+		}
+	}
 	if r.Chance(0.35) { // an earlier, completed compaction
 		c.Cmds = append(c.Cmds, stCmd{Op: "trigger"})
 		for k := 0; k < 8; k++ {
@@ -63,8 +70,30 @@ func genCrash(r *core.Rand, tier string) *stCase {
 	if r.Chance(0.3) {
 		c.Cmds = append(c.Cmds, genAdd(r, c))
 	}
+	c.Dir = r.Intn(len(crashDirNames))
+	if r.Chance(0.5) {
+		c.Dir = 0
+	}
 	c.Cmds = append(c.Cmds, stCmd{Op: "state"})
-	switch r.Pick(5, 2, 3, 3) {
+	switch r.Pick(4, 2, 3, 3, 3, 3) {
+	case 4:
+		// the process dies between two calls
+		if r.Bool() {
+			c.Cmds = append(c.Cmds, stCmd{Op: "flush"})
+		}
+		c.Cmds = append(c.Cmds, stCmd{Op: "imagenow"})
+		c.Victim = -1
+	case 5:
+		// Flush() called while the background flush worker is in the middle of writing the same
+		// frozen memtable (id taken, files created, nothing written): it returns nil; the process
+		// dies before the worker goes on
+		c.FlushThr = 64
+		c.Cmds = append(c.Cmds, genAdd(r, c))
+		if r.Bool() {
+			c.Cmds = append(c.Cmds, stCmd{Op: "rotate"}, genAdd(r, c))
+		}
+		c.Cmds = append(c.Cmds, stCmd{Op: "bg", W: "f"}, stCmd{Op: "bg", W: "fi"}, stCmd{Op: "state"}, stCmd{Op: "flush"}, stCmd{Op: "imagenow"})
+		c.Victim = -1
 	case 0: // client Flush
 		c.Victim = len(c.Cmds)
 		c.Cmds = append(c.Cmds, stCmd{Op: "flush"})
@@ -191,6 +220,16 @@ type crashImage struct {
 
 func execCrash(c *stCase) []string {
 	return withStoreEnv(c, "crash", func(e *stExec) {
+		// a crash between two calls: everything up to the `imagenow` command, then the image
+		for i, cmd := range c.Cmds {
+			if cmd.Op == "imagenow" && (c.Victim <= 0 || c.Victim >= len(c.Cmds) || i < c.Victim) {
+				for _, x := range c.Cmds[:i] {
+					e.do(x)
+				}
+				e.imageNow(c)
+				return
+			}
+		}
 		if c.Victim <= 0 || c.Victim >= len(c.Cmds) {
 			// shrunk away: plain history
 			for _, cmd := range c.Cmds {
@@ -205,7 +244,8 @@ func execCrash(c *stCase) []string {
 		if e.store == nil {
 			return
 		}
-		root := filepath.Dir(e.dir)
+		root := e.root
+		leaf := filepath.Base(e.dir)
 		pre := map[string]bool{}
 		if ents, err := os.ReadDir(e.dir); err == nil {
 			for _, en := range ents {
@@ -349,7 +389,8 @@ func execCrash(c *stCase) []string {
 		}
 		e.ref, e.noRef = nil, true // the reference index plays no role in the image runs
 		for n, im := range chosen {
-			img := filepath.Join(root, fmt.Sprintf("img%05d", n))
+			imgRoot := filepath.Join(root, fmt.Sprintf("img%05d", n))
+			img := filepath.Join(imgRoot, leaf)
 			if err := linkImage(snaps[im.snap], img, im.cut); err != nil {
 				e.emit("op panic copy image: %v", err)
 				return
@@ -358,32 +399,74 @@ func execCrash(c *stCase) []string {
 			listing := e.listing(img)
 			os.Remove(filepath.Join(img, "LOCK"))
 			// recover
-			e.openImage(listing)
-			if e.store != nil {
-				p := probes(c)
-				for _, q := range p {
-					e.do(q)
-				}
-				for _, q := range p {
-					e.do(q)
-				}
-				e.nextExp = 500000
-				e.do(stCmd{Op: "addid", V: c.Vec != "none", T: true, M: true})
-				e.do(stCmd{Op: "rotate"})
-				e.do(stCmd{Op: "flush"})
-				e.do(stCmd{Op: "ls"})
-				for _, q := range p {
-					e.do(q)
-				}
-				e.closeStore()
-			}
-			os.RemoveAll(img)
+			e.openImage("image", listing)
+			e.afterRecovery(c, n)
+			os.RemoveAll(imgRoot)
 		}
 	})
 }
 
-// openImage: like open(), but reported as `op image <listing> => …`.
-func (e *stExec) openImage(listing string) {
+// afterRecovery: what every recovered store is put through: all probes twice, one more document,
+// rotation and Flush (shows the next segment id), listing, all probes; every third image also a
+// compaction of the recovered segments (the first one after a restart) and the probes again.
+func (e *stExec) afterRecovery(c *stCase, n int) {
+	if e.store == nil {
+		return
+	}
+	p := probes(c)
+	for _, q := range p {
+		e.do(q)
+	}
+	for _, q := range p {
+		e.do(q)
+	}
+	if n%3 == 1 {
+		e.do(stCmd{Op: "trigger"})
+		for k := 0; k < c.CompThr+4; k++ {
+			e.do(stCmd{Op: "bg", W: "c"})
+		}
+		e.do(stCmd{Op: "ls"})
+		for _, q := range p {
+			e.do(q)
+		}
+	}
+	e.nextExp = 500000
+	e.do(stCmd{Op: "addid", V: c.Vec != "none", T: true, M: true})
+	e.do(stCmd{Op: "rotate"})
+	e.do(stCmd{Op: "flush"})
+	e.do(stCmd{Op: "ls"})
+	for _, q := range p {
+		e.do(q)
+	}
+	e.closeStore()
+}
+
+// imageNow: the process dies HERE — between two client calls, the last one completed, a worker
+// possibly parked inside a write. The directory is copied as it is; the real store is then shut
+// down unobserved; the copy is recovered like every other crash image.
+func (e *stExec) imageNow(c *stCase) {
+	if e.store == nil {
+		return
+	}
+	snap := filepath.Join(e.root, "now", filepath.Base(e.dir))
+	if err := copyDir(e.dir, snap); err != nil {
+		e.emit("op panic copy image: %v", err)
+		return
+	}
+	mark := len(e.lines)
+	e.closeStore()
+	e.lines = e.lines[:mark]
+	e.ref, e.noRef = nil, true
+	e.fullLen = map[string]int{}
+	e.dir = snap
+	listing := e.listing(snap)
+	os.Remove(filepath.Join(snap, "LOCK"))
+	e.openImage("imagenow", listing)
+	e.afterRecovery(c, 1)
+}
+
+// openImage: like open(), but reported as `op image|imagenow <listing> => …`.
+func (e *stExec) openImage(verb, listing string) {
 	n := len(e.lines)
 	e.open()
 	if len(e.lines) > n {
@@ -393,7 +476,7 @@ func (e *stExec) openImage(listing string) {
 			if out != "ok" && out != "locked" {
 				out = "err"
 			}
-			e.lines[len(e.lines)-1] = fmt.Sprintf("op image %s => %s", listing, out)
+			e.lines[len(e.lines)-1] = fmt.Sprintf("op %s %s => %s", verb, listing, out)
 		}
 	}
 }
@@ -413,7 +496,7 @@ func nonTrivialCrash(lines, replies []string) bool {
 func init() {
 	register(&core.Typed[stCase]{
 		StreamName: "crash", Prop: "C10",
-		RuleText: "histories with 0..3 completed flushes and optionally a completed compaction, then one victim operation (client Flush / background flush write / compaction write / compaction swap-and-delete) snapshotted at every file-operation boundary; crash images = every snapshot, plus every byte prefix (all up to 4 KB, stratified beyond) of every file created by the victim, singly and in random combinations; each image is reopened by the real code with fresh templates after deleting LOCK, probed twice in every modality (metadata also through filter groups), forced through one more rotation + Flush, listed, probed, closed; compared with the model's recover on the image (file names + gzip cut class per file); a case is non-trivial when some image was taken after at least one FS step of the victim (k>0) and contains at least one intact segment; distinct = distinct request streams",
+		RuleText: "histories with 0..3 completed flushes, optionally a restart and optionally a completed compaction, base directory names with glob metacharacters / spaces / unicode, then one victim operation (client Flush / background flush write / compaction write / compaction swap-and-delete) snapshotted at every file-operation boundary, or a crash BETWEEN two calls (`imagenow`) — in particular right after a Flush() that returned while the background flush worker was parked in the middle of writing the same memtable; crash images = every snapshot, plus every byte prefix (all up to 4 KB, stratified beyond) of every file created by the victim, singly and in random combinations; each image is reopened by the real code with fresh templates after deleting LOCK, probed twice in every modality (metadata also through filter groups), every third also through a compaction of the recovered segments, all forced through one more rotation + Flush, listed, probed, closed; compared with the model's recover on the image (file names + gzip cut class per file); a case is non-trivial when some image was taken after at least one FS step of the victim (k>0) and contains at least one intact segment; distinct = distinct request streams",
 		NCases: func(tier string) int {
 			if tier == "thorough" {
 				return 400
